@@ -76,6 +76,7 @@ type SpecFunc struct {
 	body   ast.Expr
 	rec    bool
 	abstract bool
+	replayBody ast.Expr
 	text   string
 }
 
@@ -91,6 +92,7 @@ type Lemma struct {
 
 type atAssume struct {
 	src  string
+	occ  int
 	cl   *clause
 	used bool
 }
@@ -131,7 +133,7 @@ func (c *Contracts) fieldContract(key string) *FuncContract {
 var headRE = regexp.MustCompile(`^func\s+(\S+?)\s*\(([^)]*)\)\s*(?:\(([^)]*)\))?\s*$`)
 var fieldRE = regexp.MustCompile(`^field\s+(\S+)\s*\(([^)]*)\)\s*(?:\(([^)]*)\))?\s*$`)
 var specRE = regexp.MustCompile(`^spec\s+(rec\s+)?(\w+)\s*\(([^)]*)\)\s*(\S+)\s*=\s*(.*)$`)
-var abstractRE = regexp.MustCompile(`^spec\s+abstract\s+(\w+)\s*\(([^)]*)\)\s*(\S+)\s*$`)
+var abstractRE = regexp.MustCompile(`^spec\s+abstract\s+(\w+)\s*\(([^)]*)\)\s*(\S+)\s*(?:~\s*(.*))?$`)
 var tagRE = regexp.MustCompile(`\s*@((?:C\d+|assume)(?:,(?:C\d+|assume))*)\s*$`)
 
 func splitNames(s string) []string {
@@ -261,6 +263,11 @@ func (cs *Contracts) parseFile(p *packages.Package, file string) {
 					sf.ptypes = append(sf.ptypes, cs.resolveType(p, fs[1], file, r.line))
 				}
 				sf.rtype = cs.resolveType(p, am[3], file, r.line)
+				if strings.TrimSpace(am[4]) != "" {
+					if c := mkClause(am[4]); c != nil {
+						sf.replayBody = c.expr // intended meaning, used only to pick realistic models for replay
+					}
+				}
 				cs.specs[sf.name] = sf
 				cur, curLemma = nil, nil
 				continue
@@ -357,14 +364,15 @@ func (cs *Contracts) parseFile(p *packages.Package, file string) {
 				cur.preserves = append(cur.preserves, splitNames(rest)...)
 			case "at":
 				// at "source line text" assume expr
-				am := regexp.MustCompile("^\"((?:[^\"\\\\]|\\\\.)*)\"\\s+assume\\s+(.*)$").FindStringSubmatch(rest)
+				am := regexp.MustCompile("^\"((?:[^\"\\\\]|\\\\.)*)\"(?:#(\\d+))?\\s+assume\\s+(.*)$").FindStringSubmatch(rest)
 				if am == nil {
 					cs.errf(file, r.line, "bad at-clause %q", t)
 					continue
 				}
 				src, _ := strconv.Unquote("\"" + am[1] + "\"")
-				if c := mkClause(am[2]); c != nil {
-					cur.atAssumes = append(cur.atAssumes, &atAssume{src: normSrc(src), cl: c})
+				occ, _ := strconv.Atoi(am[2])
+				if c := mkClause(am[3]); c != nil {
+					cur.atAssumes = append(cur.atAssumes, &atAssume{src: normSrc(src), occ: occ, cl: c})
 				}
 			case "hint":
 				if c := mkClause(rest); c != nil {
